@@ -8,6 +8,11 @@ pub mod cmp;
 pub mod engine;
 pub mod gen;
 pub mod model;
+pub mod neon_emu;
+#[allow(dead_code, unused, clippy::all, unsafe_op_in_unsafe_fn)]
+pub mod neon_gen {
+    include!(concat!(env!("OUT_DIR"), "/neon_gen.rs"));
+}
 pub mod props;
 pub mod real;
 
